@@ -53,11 +53,11 @@ def decode_frame(p):
     if k in (1, 2):
         return ['probe', p % 8]
     kind = 'switch' if k < 6 else 'raise'
-    return [kind, p % 4, p // 4 % 4 == 0, p // 16 % 4 == 0, SOURCES[p // 64 % 3], p // 192 % 2]
+    return [kind, p % 4, p // 4 % 4 == 0, p // 16 % 4 == 0, SOURCES[p // 64 % 3], p // 192 % 2, p // 384 % 2]
 
 
 def strategy():
-    fr = worldops.packed(8 * 4 * 4 * 4 * 3 * 2).map(decode_frame)
+    fr = worldops.packed(8 * 4 * 4 * 4 * 3 * 2 * 2).map(decode_frame)
     return st.fixed_dictionaries({'handles': st.integers(2, 4), 'frames': worldops.chunked(fr, 16, chunk=4),
                                   # which World classes the handles load: 0 plain/falsy alternating, 1 value-equal
                                   # worlds, 2 value-equal and value-equal-and-falsy, 3 all plain
@@ -184,7 +184,8 @@ class RecWorldHandle(desper.WorldHandle):
         lst = Listener(run)
         lst.world = world
         world.create_entity(lst)
-        cp.start(run.coroutine(world))
+        world._cp, world._gen = cp, run.coroutine(world)
+        cp.start(world._gen)
 
 
 class Run:
@@ -248,10 +249,17 @@ class Run:
             self.log.append(('D', self.inst_of[id(w)], token))
             w.dispatch('probe', token)
             return
-        kind, target, cc, cn, src, explicit_from = fr
+        kind, target, cc, cn, src, explicit_from = fr[:6]
         if src != source:
             return
         self.acted.add(g)
+        if source == 'coroutine' and len(fr) > 6 and fr[6]:
+            # the coroutine kills itself (its last act) and then asks for the switch
+            try:
+                world._cp.kill(world._gen)
+                self.flags['switch_requested_by_a_coroutine_that_killed_itself'] += 1
+            except ValueError:
+                pass
         th = self.handles[target % len(self.handles)]
         cached_before = self.inst_of[id(th())] if th.cached else None
         cur_handle = self.handles.index(self.loop.current_world_handle)
